@@ -95,7 +95,10 @@ GENERIC_STR = [
 ]
 NUM_TOKENS = [
     "0", "1", "2", "7", "10", "205", "0.5", "1.5", "2.25", "1e3", "1.5e-3",
-    "0.0", "3.0", "100", "12.75", "1e+3", ".5", "2.", "+3", "1.4e+09", "5E-1"
+    "0.0", "3.0", "100", "12.75", "1e+3", ".5", "2.", "+3", "1.4e+09", "5E-1",
+    # integers that are not representable as a double (ids, tokens, stamps in
+    # nanoseconds)
+    "12345678901234567890", "9007199254740993", "1700000000123456789"
 ]
 NEG_NUM_TOKENS = ["-1", "-0.5", "-3", "-2.5e1"]
 STAT_NAMES = ["rmse", "median", "mean", "std", "min", "max"]
